@@ -818,6 +818,11 @@ class DAGRunConcurrentManager(DAGRunManagerLike):
 
             if has_errors:
                 logger.debug('The subgraph should be stopped. There is an error in %s', name)
+
+                # The node will not get a result. The subgraph that waits for it (a OneOf candidate) must be woken up
+                # to find the error; the early exit of the recurrent dag reaches the node's descendants only if the
+                # failed node is close enough to the node.
+                await self.__unlock_descendants(node_id)
                 return
 
             if not is_rec_result and not has_errors:
